@@ -14,7 +14,9 @@ try:
     for pr in props:
         r = subprocess.run(["/verif/check", pr, "--tier", tier], env=env, stdout=subprocess.PIPE, stderr=subprocess.STDOUT, text=True)
         rules = [l.strip()[:260] for l in r.stdout.splitlines() if l.startswith("  rule")]
-        print("%s exit=%d %s" % (pr, r.returncode, "CAUGHT" if r.returncode == 1 else ("ERROR" if r.returncode == 2 else "missed")))
+        crashed = r.returncode == 1 and "VIOLATION property=" not in r.stdout
+        print("%s exit=%d %s" % (pr, r.returncode, "CRASH" if crashed else "CAUGHT" if r.returncode == 1 else ("ERROR" if r.returncode == 2 else "missed")))
+        if crashed: print(r.stdout[-1200:])
         for x in rules[:4]: print("    ", x)
         if r.returncode == 2: print(r.stdout[-1500:])
 finally:
